@@ -109,6 +109,32 @@ def run_countries(shard, mon, S):
         if not o.ok:
             mon.viol("reference_valid_iban_rejected", {**w, "iban": t}, "ACCEPT", o.brief())
         mon.tally("countries")
+    # the effective tables must still equal the files after the library has been used
+    if registry is not None:
+        from random import Random  # noqa: PLC0415
+
+        keys = sorted(lookup.by_key())
+        urng = env.rng("C17", "usage")
+        for k in range(300):
+            cc = urng.choice(sorted(table))
+            pos = data.positions(table[cc])
+            pins = {}
+            if pos and k % 2:
+                c = urng.choice(sorted(pos))
+                cls = R.position_classes(table[cc]["bban_spec"])
+                pins[c] = "".join(urng.choice(x) for x in cls[pos[c][0] : pos[c][1]])
+            observe(S.IBAN.random, cc, random=Random(f"u{k}"), **pins)
+            c2, code = urng.choice(keys)
+            observe(S.BIC.from_bank_code, c2, code)
+            observe(S.BIC.candidates_from_bank_code, c2, code)
+        eff2 = {k: {kk: vv for kk, vv in v.items() if kk != "regex"} for k, v in registry.get("iban").items()}
+        if eff2 != table:
+            mon.viol("effective_country_table_differs_from_files_after_use", {}, "R-DATA merge", "library view differs")
+        if registry.get("bank") != data.banks():
+            lb = registry.get("bank")
+            i = next((i for i, (a, b) in enumerate(zip(lb, data.banks())) if a != b), -1)
+            mon.viol("effective_bank_list_differs_from_files_after_use", {"index": i}, data.banks()[i] if i >= 0 else None, lb[i] if i >= 0 else None)
+        mon.tally("post_usage_recheck")
     mon.sample({"country": "DE", "entry": table.get("DE")})
 
 
